@@ -600,6 +600,7 @@ func (fc *FnCtx) evalUnary(st *State, x *ast.UnaryExpr) Val {
 	case token.AND:
 		return fc.addressOf(st, x.X)
 	case token.ARROW:
+		fc.onChan(st, "recv", x.X, x)
 		return fc.lenientFresh(x, "channel receive")
 	case token.XOR:
 		return fc.lenientFresh(x, "bitwise complement")
